@@ -31,6 +31,7 @@ type config struct {
 	Kind    string `json:"stream"` // twcc | ccfb : how the local stream is negotiated
 	Depth   int    `json:"depth"`
 	First   int    `json:"first_symbol"`
+	Order   string `json:"option_order,omitempty"`     // order in which the three bitrate options are given (default initial,min,max)
 	Pump    int    `json:"pump_repetitions,omitempty"` // >0: cycle pumping job (cycles up to length Depth, repeated Pump times)
 	Chunk   int    `json:"chunk,omitempty"`
 }
@@ -101,7 +102,15 @@ func newSystem(c config) (*system, error) {
 	sys := &system{c: c, t0: vsched.NowNanos(), twccRec: twcc.NewRecorder(0x77), ccfbRec: rfc8888.NewRecorder()}
 	var opts []gcc.Option
 	if c.Initial > 0 {
-		opts = append(opts, gcc.SendSideBWEInitialBitrate(c.Initial), gcc.SendSideBWEMinBitrate(c.Min), gcc.SendSideBWEMaxBitrate(c.Max))
+		ini, mn, mx := gcc.SendSideBWEInitialBitrate(c.Initial), gcc.SendSideBWEMinBitrate(c.Min), gcc.SendSideBWEMaxBitrate(c.Max)
+		switch c.Order {
+		case "max,min,initial":
+			opts = append(opts, mx, mn, ini)
+		case "min,max,initial":
+			opts = append(opts, mn, mx, ini)
+		default:
+			opts = append(opts, ini, mn, mx)
+		}
 	}
 	if strings.HasPrefix(c.Pacer, "recording") {
 		sys.pacer = &recordingPacer{NoOpPacer: gcc.NewNoOpPacer()}
@@ -500,6 +509,19 @@ func configs(tier string) []config {
 		{Initial: 2_000_000, Min: 150_000, Max: 2_500_000, Pacer: "recording", Kind: "ccfb"},
 	}
 	var out []config
+	// limits outside the package defaults (5 kbit/s .. 50 Mbit/s), options in several orders: the configured
+	// limits are the limits whatever the order
+	for _, c := range []config{
+		{Initial: 3000, Min: 1000, Max: 3000, Pacer: "recording", Kind: "twcc", Order: "max,min,initial"},
+		{Initial: 3000, Min: 1000, Max: 3000, Pacer: "recording", Kind: "twcc"},
+		{Initial: 60_000_000, Min: 60_000_000, Max: 100_000_000, Pacer: "recording", Kind: "twcc", Order: "min,max,initial"},
+	} {
+		c.Depth = d - 1
+		for a := 0; a < 3; a++ {
+			c.First = a
+			out = append(out, c)
+		}
+	}
 	// an injected pacer whose Close fails: the estimator must be closed all the same
 	for a := 0; a < 3; a++ {
 		out = append(out, config{Initial: 300_000, Min: 200_000, Max: 1_000_000, Pacer: "recording-close-fails", Kind: "twcc", Depth: d - 1, First: a})
